@@ -143,8 +143,8 @@ def build_handle_nope(run, prop, E, FakeTRX):
         return (list(E.ghost.get("sent_views", [])), list(E.ghost.get("refused", [])))
     nsupp = 0
     for p, ctx, out in run_paths(E, setup, inv):
-        run.add(*path_obligations(run, prop, h, p, ""))
         tag = {"what": "handle_nope"}
+        run.add(*path_obligations(run, prop, h, p, "", tag=tag))
         if out[0] == "raise":
             run.add(Obligation(prop, qualname(h), "never_raises", p.pc, z3.BoolVal(False), kind="noexc", note=exc_note(out[1]), case=out[1].cls.__name__, where=where(h), tag=tag))
             continue
